@@ -251,6 +251,22 @@ CHECKS['C16'] = dict(
               'whole-session HTTP differential correspondence; search harness (fuzzing, not proof) for the no-5xx half',
     design='C16')
 
+CHECKS['C05'] = dict(
+    text='Theorems: C05_escape_safe (markupsafe.escape output can never close character data / an attribute value or open markup, for '
+         'every string), C05_site_sound (soundness of the per-site analysis for every site shape and every string), C05_sites (EVERY '
+         'output site of the manifest / patch / segment / DRM / event templates - a table regenerated from the templates and the live '
+         'jinja_env on each run - is accepted by the analysis, except 4 pinned trusted-markup sites), C05_every_site_safe (their '
+         'combination), C05_refuted_amp_only (the pinned upstream filter is not enough: witnesses), C05_duration_lexical. Tied to /repo '
+         'by the translator and by differential runs of markupsafe.escape / the xmlSafe filter against the model. An lxml + ISO/IEC '
+         '23009-1 rule-set oracle decides the rest on real responses: 9 templates + patch x modes x single / multi-period x hostile '
+         'strings in title, period ids, licence URLs, query values, Host: well-formed, no canary element / attribute, required '
+         'attributes, lexical validity, unique ids, no empty AdaptationSet, URL template identifiers.',
+    note=TB + 'PARTIAL: the structural MPD rules depend on Jinja control flow and stored data and are decided dynamically, not proved. '
+         'Head expressions classified inert and the 4 trusted markup sites are a reviewed list in the translator.',
+    technique='Coq proof (escaping lemmas by induction over strings; abstract interpretation of filter chains proved sound; finite table '
+              'by vm_compute) + translator (Jinja lexer, live jinja_env) + differential correspondence + lxml / rule-set oracle',
+    design='C05')
+
 NOT_YET = {
 }
 
